@@ -163,6 +163,46 @@ func docs() []any {
 	return []any{big, arr, small, float64(42), "scalar", nil}
 }
 
+// regrow deep-copies v, building every array element by element with append.
+func regrow(v any) any {
+	switch x := v.(type) {
+	case []any:
+		var out []any
+		for _, e := range x {
+			out = append(out, regrow(e))
+		}
+		if out == nil {
+			out = []any{}
+		}
+		return out
+	case map[string]any:
+		out := make(map[string]any, len(x))
+		for k, e := range x {
+			out[k] = regrow(e)
+		}
+		return out
+	default:
+		return v
+	}
+}
+
+// arrayHeads collects the address of the first element of every non-empty array in v.
+func arrayHeads(v any, acc map[*any]string, where string) {
+	switch x := v.(type) {
+	case []any:
+		if len(x) > 0 {
+			acc[&x[0]] = where
+		}
+		for i, e := range x {
+			arrayHeads(e, acc, fmt.Sprintf("%s[%d]", where, i))
+		}
+	case map[string]any:
+		for k, e := range x {
+			arrayHeads(e, acc, where+"."+k)
+		}
+	}
+}
+
 func varsets() []exec.Vars {
 	return []exec.Vars{
 		nil,
@@ -465,8 +505,18 @@ func main() {
 		}
 		shared[i] = p
 	}
+	// the shared inputs are rebuilt the way encoding/json builds them: arrays grown by append, so
+	// that they have spare capacity like every decoded document (a literal []any{..} has none)
 	sharedDocs := docs()
+	for i := range sharedDocs {
+		sharedDocs[i] = regrow(sharedDocs[i])
+	}
 	sharedVars := varsets()
+	for i := range sharedVars {
+		if sharedVars[i] != nil {
+			sharedVars[i] = exec.Vars(regrow(map[string]any(sharedVars[i])).(map[string]any))
+		}
+	}
 	docBefore := make([]string, len(sharedDocs))
 	for i, d := range sharedDocs {
 		docBefore[i] = canonStr(d)
@@ -632,6 +682,76 @@ func main() {
 	close(start)
 	wg.Wait()
 	sum.ConcurrentCalls, sum.ConcurrentStrings, sum.ConcurrentParses = nCalls, nStr, nParse
+
+	// 3b. first use of a freshly parsed *Path by all goroutines at once: String / MarshalText / Query
+	// released by one barrier, so that anything the first call builds lazily is built under contention
+	for round := 0; round < 1+*hist/20; round++ {
+		for pi := range pathSrcs {
+			fresh, err := path.Parse(pathSrcs[pi])
+			if err != nil {
+				continue
+			}
+			gate := make(chan struct{})
+			var wg2 sync.WaitGroup
+			for g := 0; g < *n; g++ {
+				wg2.Add(1)
+				go func(g int) {
+					defer wg2.Done()
+					<-gate
+					var s string
+					if g%3 == 2 {
+						b, _ := fresh.MarshalText()
+						s = string(b)
+					} else {
+						s = fresh.String()
+					}
+					atomic.AddInt64(&nStr, 1)
+					if s != strs[pi] {
+						report(mismatch{Phase: "first-use-string", Call: callSpec{Path: pi, Entry: "String"}, PathSrc: pathSrcs[pi],
+							Got: outcome{Value: s}, Want: outcome{Value: strs[pi]}, Note: fmt.Sprintf("goroutine %d of %d calling String on a freshly parsed *Path at once", g, *n)})
+					}
+				}(g)
+			}
+			close(gate)
+			wg2.Wait()
+		}
+	}
+	sum.ConcurrentStrings = nStr
+
+	// 3c. a result never hands out the shared document's own array: the slice Query returns must not
+	// start at an element of an array inside the shared document or variables (the caller owns the
+	// result; appending to it would write into the shared input)
+	heads := map[*any]string{}
+	for i, d := range sharedDocs {
+		arrayHeads(d, heads, fmt.Sprintf("doc%d:$", i))
+	}
+	for i, v := range sharedVars {
+		arrayHeads(map[string]any(v), heads, fmt.Sprintf("vars%d:", i))
+	}
+	for _, c := range specs {
+		if c.Entry != "Query" || c.Opt.Silent || c.Opt.TZ {
+			continue
+		}
+		var vs []exec.Option
+		if sharedVars[c.Opt.Vars] != nil {
+			vs = append(vs, exec.WithVars(sharedVars[c.Opt.Vars]))
+		}
+		res, err := func() (r []any, e error) {
+			defer func() {
+				if x := recover(); x != nil {
+					e = fmt.Errorf("panic: %v", x)
+				}
+			}()
+			return shared[c.Path].Query(context.Background(), sharedDocs[c.Doc], vs...)
+		}()
+		sum.HistoryCalls++
+		if err == nil && len(res) > 0 {
+			if where, ok := heads[&res[0]]; ok {
+				report(describe("result-aliases-input", c, outcome{Value: "the returned slice is the array at " + where}, isolated[c.key()],
+					"Query returned the shared input's own backing array as its result list"))
+			}
+		}
+	}
 
 	// 4. sequential histories on one *Path: random, reversed, shuffled, repeated
 	for pi := range shared {
